@@ -96,7 +96,7 @@ func vgFamilyService() *vgFamily {
 	)
 }
 
-// family 2: extensions (file level and nested in a message), extendee with an extension range.
+// family 2: extensions (file level and nested in a message), extendee with an extension range, a proto2 group.
 func vgFamilyExtensions() *vgFamily {
 	file := &descriptorpb.FileDescriptorProto{
 		Name: vgS("ext.proto"), Package: vgS("e"), Syntax: vgS("proto2"),
@@ -104,13 +104,24 @@ func vgFamilyExtensions() *vgFamily {
 			{Name: vgS("Base"), ExtensionRange: []*descriptorpb.DescriptorProto_ExtensionRange{{Start: vgI(100), End: vgI(200)}}},
 			{Name: vgS("Payload")},
 			{Name: vgS("Holder"), Extension: []*descriptorpb.FieldDescriptorProto{vgExtends(vgScalar("hext", 101), ".e.Base")}},
-			{Name: vgS("User"), Field: []*descriptorpb.FieldDescriptorProto{vgMsgField("b", 1, ".e.Base")}},
+			{
+				// message User { optional Base b = 1; optional group G = 2 { optional GVal v = 1; } }
+				Name: vgS("User"),
+				Field: []*descriptorpb.FieldDescriptorProto{
+					vgMsgField("b", 1, ".e.Base"),
+					{Name: vgS("g"), Number: vgI(2), Label: vgOptional, Type: descriptorpb.FieldDescriptorProto_TYPE_GROUP.Enum(), TypeName: vgS(".e.User.G")},
+				},
+				NestedType: []*descriptorpb.DescriptorProto{
+					{Name: vgS("G"), Field: []*descriptorpb.FieldDescriptorProto{vgMsgField("v", 1, ".e.GVal")}},
+				},
+			},
+			{Name: vgS("GVal")},
 		},
 		Extension: []*descriptorpb.FieldDescriptorProto{vgExtends(vgMsgField("pext", 100, ".e.Payload"), ".e.Base")},
 	}
 	return vgFinishFamily(
 		[]*descriptorpb.FileDescriptorProto{file}, []bool{false},
-		[]string{"e.Base", "e.Payload", "e.pext", "e.Holder.hext", "e.Holder", "e.User"},
+		[]string{"e.Base", "e.Payload", "e.pext", "e.Holder.hext", "e.Holder", "e.User", "e.GVal", "e.User.G"},
 	)
 }
 
